@@ -51,3 +51,45 @@ Proof. intros H. exact (periodic_walk3_accepts tr rinit s RInv_init H). Qed.
 
 Example periodic_walk3_rejects_overlap : periodic_walk3 false (rpevs [(3, RExpBegin 1); (4, RExpBegin 1)]) <> [].
 Proof. vm_compute. discriminate. Qed.
+
+(* ... and the join-once checker (C02): the acceptor never accepts a second join of the worker *)
+Lemma rjoin_step s t e s' : RInv s -> raccept s (t, e) = Some s' ->
+  match e with
+  | RJoin 0 => r_joined s = false /\ r_joined s' = true
+  | _ => r_joined s' = r_joined s
+  end.
+Proof.
+  intros I H. pose proof (q_wp s I) as Iwp. unfold rwp_inv in Iwp.
+  unfold raccept in H. destruct t as [|t]; cbn [fst snd] in H.
+  - destruct (r_joined s) eqn:J; [discriminate|]. unfold raccept_worker in H.
+    destruct (r_wp s) eqn:W; destruct e; try discriminate H; rbreak H; inversion H; subst; clear H; rbools; subst; simpl; auto.
+    (* the worker joins its collect thread, whose id is not 0 *)
+    destruct Iwp as (_ & p & _ & Nz & _). match goal with |- match ?x with _ => _ end => destruct x end; [congruence | simpl; congruence].
+  - assert (App : raccept_app s (S t) e = Some s' ->
+                  match e with
+                  | RJoin 0 => r_joined s = false /\ r_joined s' = true
+                  | _ => r_joined s' = r_joined s
+                  end).
+    { intros A. unfold raccept_app in A.
+      destruct (r_ap s (S t)) eqn:P; destruct e; try discriminate A; rbreak A; inversion A; subst; clear A; simpl; auto. }
+    destruct (r_coll s) as [[c p]|] eqn:C; [|exact (App H)].
+    destruct (Nat.eqb (S t) c) eqn:E; [|exact (App H)].
+    unfold raccept_coll in H.
+    destruct p; destruct e; try discriminate H; rbreak H; inversion H; subst; clear H; simpl; auto.
+Qed.
+
+Lemma periodic_join_walk_accepts : forall tr s s', RInv s -> rrun s tr = Some s' -> periodic_join_walk (r_joined s) (rpevs tr) = [].
+Proof.
+  induction tr as [|[t e] tr IH]; intros s s' I H; simpl in *; auto.
+  destruct (raccept s (t, e)) as [s1|] eqn:A; [|discriminate].
+  pose proof (rjoin_step s t e s1 I A) as St. specialize (IH s1 s' (raccept_preserves s (t, e) s1 I A) H).
+  destruct e; simpl; try (rewrite <- St; exact IH).
+  destruct c as [|c]; [|rewrite <- St; exact IH].
+  destruct St as (J & J'). rewrite J. simpl. rewrite J' in IH. exact IH.
+Qed.
+
+Theorem accepted_trace_meets_periodic_spec_join tr s : rrun rinit tr = Some s -> periodic_join_walk false (rpevs tr) = [].
+Proof. intros H. exact (periodic_join_walk_accepts tr rinit s RInv_init H). Qed.
+
+Example periodic_join_walk_rejects_second_join : periodic_join_walk false (rpevs [(1, RJoin 0); (2, RJoin 0)]) <> [].
+Proof. vm_compute. discriminate. Qed.
